@@ -173,6 +173,8 @@ type Exec struct {
 	localList         []*types.Var
 	recvStatic        types.Type
 	ghostGenN         int
+	curLoop           *loopCtx
+	variant0          *Term // the termination measure at entry of the function under contract
 	frameLocsCache    []frameLoc
 	frameLocsDone     bool
 	freshRefs         map[string]bool
